@@ -29,6 +29,9 @@ def dec_index(enc):
         if e[0] == "i": return int(e[1])
         if e[0] == "s": return slice(e[1], e[2], e[3])
         if e[0] == "l": return list(e[1])
+        if e[0] == "a": return np.array(e[1], dtype=np.int64)        # integer index array (any rank)
+        if e[0] == "m": return np.array(e[1], dtype=bool)            # boolean mask array
+        if e[0] == "ml": return [bool(b) for b in e[1]]              # boolean mask as a Python list
         raise harness.HarnessError(f"bad index {e}")
     if isinstance(enc, (list, tuple)) and enc and enc[0] == "T":
         return tuple(one(e) for e in enc[1])
@@ -209,6 +212,21 @@ def index_cases():
             if r >= 2:
                 out.append((shape, ["T", [("s", None, None, None), ("l", [0, -shape[1]])]]))
                 out.append((shape, ["T", [("l", lst), ("l", [0, -shape[1], 0][: len(lst)])]]))
+        # integer index arrays and boolean masks (NumPy advanced indexing; the forward hands the key to NumPy as it is)
+        n0 = shape[0]
+        msk = lambda n, k=0: [bool((i + k) % 2 == 0) for i in range(n)]
+        singles = [("a", [1, 0]), ("a", [-1, -1]), ("a", [[0, 1], [1, 0]]), ("a", [0, -n0, n0 - 1]), ("m", msk(n0)), ("ml", msk(n0)), ("m", msk(n0, 1))]
+        for e in singles:
+            out.append((shape, e)); out.append((shape, ["T", [e]]))
+        if r >= 2:
+            n1 = shape[1]
+            for e in (("a", [1, 0]), ("a", [0, 0]), ("m", msk(n1)), ("ml", msk(n1, 1))):
+                out.append((shape, ["T", [("s", None, None, None), e]])); out.append((shape, ["T", ["E", e]]))
+                out.append((shape, ["T", [("i", -1), e]])); out.append((shape, ["T", [("s", None, None, -1), e, "N"]]))
+            out.append((shape, ["T", [("a", [0, 2, 2]), ("a", [1, 0, 0])]])); out.append((shape, ["T", [("a", [[0], [2]]), ("a", [1, 0])]]))
+            out.append((shape, ["T", [("m", msk(n0)), ("a", [1, 0])]]))
+            full = [[bool((i * n1 + j) % 2 == 0) for j in range(n1)] for i in range(n0)]
+            out.append((shape, ("m", full))); out.append((shape, ["T", [("m", full)]]))
     out.append(((), "E")); out.append(((), "N")); out.append(((), ["T", []]))
     return out
 
